@@ -218,6 +218,59 @@ impl<Item, SinkItem> Drop for Tap<Item, SinkItem> {
     }
 }
 
+/// What the watchdog thread knows about the scenario in progress (the event log itself is thread-local to the main thread).
+struct Watch {
+    id: String,
+    cfg: Value,
+    steps: Vec<Value>,
+    since: std::time::Instant,
+}
+static WATCH: Mutex<Option<Watch>> = Mutex::new(None);
+
+/// A spawned task that never returns to the runtime would hang the harness for good.  The watchdog turns that into a result: it
+/// replaces the run's output by the hung scenario alone - `Reset`, `SysHang` - and ends the process; Trace_Sys judges it like any
+/// other trace ("a task never returned control to the runtime").
+fn start_watchdog(a: &Args) {
+    let limit = std::time::Duration::from_secs(a.opt_u64("hang_s", 180));
+    let (trace, report) = (a.trace.clone(), a.report.clone());
+    std::thread::spawn(move || loop {
+        std::thread::sleep(std::time::Duration::from_millis(250));
+        let g = WATCH.lock().unwrap();
+        if let Some(w) = g.as_ref() {
+            if w.since.elapsed() > limit {
+                let reset = json!({"ev": "Reset", "scn": 1, "seq": 1, "t": 0, "task": "env",
+                                   "sub": w.cfg["sub"].as_str().unwrap_or("none"), "transport": w.cfg["transport"].as_str().unwrap_or("mem"),
+                                   "n": w.cfg["n"].as_u64().unwrap_or(0), "limit": w.cfg["limit"].as_i64().unwrap_or(-1),
+                                   "maxInFlight": w.cfg["maxInFlight"].as_u64().unwrap_or(1000), "buf": w.cfg["buf"].as_u64().unwrap_or(100)});
+                let hang = json!({"ev": "SysHang", "scn": 1, "seq": 2, "t": 0, "task": "env", "secs": limit.as_secs()});
+                if let Some(p) = &trace {
+                    let _ = std::fs::write(p, format!("{}\n{}\n", reset, hang));
+                }
+                let rep = json!({"family": "sys", "executed": 1, "panics": 0, "hang": true, "mismatches": [],
+                                 "index": [{"scn": 1, "id": w.id, "cfg": w.cfg, "steps": w.steps}]});
+                match &report {
+                    Some(p) => {
+                        let _ = std::fs::write(p, serde_json::to_string_pretty(&rep).unwrap());
+                    }
+                    None => println!("{}", rep),
+                }
+                std::process::exit(0);
+            }
+        }
+    });
+}
+fn watch_begin(id: &str, cfg: &Value, steps: &[Value]) {
+    *WATCH.lock().unwrap() = Some(Watch { id: id.to_string(), cfg: cfg.clone(), steps: steps.to_vec(), since: std::time::Instant::now() });
+}
+fn watch_step(s: &Value) {
+    if let Some(w) = WATCH.lock().unwrap().as_mut() {
+        w.steps.push(s.clone());
+    }
+}
+fn watch_end() {
+    *WATCH.lock().unwrap() = None;
+}
+
 type STap = Tap<ClientMessage<Req>, Response<Resp>>;
 type CTap = Tap<Response<Resp>, ClientMessage<Req>>;
 
@@ -628,10 +681,12 @@ fn run_one(scn: u64, cfg: &Value, steps: &[Value], rng: Option<&mut StdRng>, nra
                 if s["a"] == "Call" {
                     next_call += 1;
                 }
+                watch_step(&s);
                 w.step(&s);
                 let is_run = s["a"] == "Run";
                 done.push(s);
                 if !is_run && !(batch && rng.gen_bool(0.5)) {
+                    watch_step(&json!({"a": "Run"}));
                     w.step(&json!({"a": "Run"}));
                     done.push(json!({"a": "Run"}));
                 }
@@ -674,6 +729,7 @@ fn run_one(scn: u64, cfg: &Value, steps: &[Value], rng: Option<&mut StdRng>, nra
 pub fn run(a: &Args) -> Value {
     let sub = a.opt_str("sub", "none");
     crate::wire::install_subscriber(&sub);
+    start_watchdog(a);
     let mut index = vec![];
     let mut scn = 0u64;
     let mut panics = 0;
@@ -681,7 +737,9 @@ pub fn run(a: &Args) -> Value {
         for Sched { id, mut cfg, steps, .. } in crate::load_scheds(p) {
             scn += 1;
             cfg["sub"] = json!(sub);
+            watch_begin(&id, &cfg, &steps);
             let (done, pn) = run_one(scn, &cfg, &steps, None, 0);
+            watch_end();
             if pn.is_some() {
                 panics += 1;
             }
@@ -699,7 +757,9 @@ pub fn run(a: &Args) -> Value {
         let transport = ["mem", "mem", "json", "bincode"][rng.gen_range(0..4)];
         let cfg = json!({"n": n, "limit": limit, "maxInFlight": mif, "buf": buf, "respBuf": rb, "random": true, "transport": transport, "sub": sub});
         let len = 4 + rng.gen_range(0..14usize);
+        watch_begin(&format!("rand:{}:{}", a.seed, i), &cfg, &[]);
         let (done, pn) = run_one(scn, &cfg, &[], Some(&mut rng), len);
+        watch_end();
         if pn.is_some() {
             panics += 1;
         }
